@@ -22,7 +22,8 @@ from vlib.cmp import as_array, assert_shape, finite
 PROPERTY = "C05"
 RULE = ("Hypothesis: matrices (1-6)x(1-6) incl. 1xN / Nx1 of classes small-int, dyadic, seeded Gaussian, seeded int, "
         "rank-deficient (product of thin factors, real or integer), prescribed spectrum with repeats / zeros / tiny values "
-        "(orthonormal x diag x orthonormal); n_eigenvecs in {None, 1..max(shape)+2}; methods truncated_svd, symeig_svd, "
+        "(orthonormal x diag x orthonormal), geometric spectra spanning 2-8 orders of magnitude at sizes up to 12x10 and rank <= 8 "
+        "(all methods but symeig; randomized then with n_iter 1-4 and k+n_oversamples >= rank); n_eigenvecs in {None, 1..max(shape)+2}; methods truncated_svd, symeig_svd, "
         "randomized_svd (n_oversamples 0-5, n_iter 0-3, integer random_state from the case), a callable wrapping "
         "numpy.linalg.svd, and tl.truncated_svd directly; flip_sign on/off, u_based_flip_sign both; non_negative in "
         "{True,'nndsvd','nndsvda'} on non-negative, signed, negative-mean and rank-deficient non-negative matrices; "
@@ -162,6 +163,9 @@ def _info(case, c):
               f"deficient={int(deficient)}", f"below_gap={int(bool(c['below']))}"]
     if case["method"] == "randomized_svd":
         labels.append(f"covered={int(c['covered'])}")
+        labels.append(f"n_iter={case['n_iter']}")
+    if case["M"].get("sub") == "geom":
+        labels.append(f"geom_span=1e-{case['M']['e']}")
     if case["method"] != "direct":
         labels.append(f"flip={int(case.get('flip', True))}{'u' if case.get('ubased', True) else 'v'}")
     return {"nontrivial": bool(nontrivial and c["covered"]), "labels": labels}
@@ -364,6 +368,16 @@ def _matrix_spec(draw, classes):
         r = draw(st.integers(1, max(1, min(m, n) - 1))) if min(m, n) > 1 else 1
         k = {"lowrank": "normal", "lowrank_int": "int", "lowrank_nonneg": "uniform"}[cls]
         return {"kind": "lowrank", "sub": cls, "A": draw(gen.arr([m, r], kinds=(k,))), "B": draw(gen.arr([r, n], kinds=(k,)))}
+    if cls == "geom":
+        # prescribed geometric spectrum Q1 diag(s) Q2^T: rank r, s from scale down to scale*10^-e (e = 2..8 orders)
+        m = draw(st.sampled_from(GEOM_ROWS))
+        n = draw(st.sampled_from(GEOM_COLS))
+        r = draw(st.integers(2, min(m, n, 8)))
+        e = draw(st.sampled_from([2, 3, 4, 5, 6, 7, 8]))
+        scale = draw(st.sampled_from([1.0, 1.0, 4.0, 0.25]))
+        sig = [scale * 10.0 ** (-e * j / (r - 1)) for j in range(r)] + [0.0] * (min(m, n) - r)
+        return {"kind": "spectrum", "sub": cls, "m": m, "n": n, "sig": sig, "seed": draw(st.integers(0, 10 ** 6)),
+                "r": r, "e": e}
     if cls == "spectrum":
         r = min(m, n)
         idx = [draw(st.integers(0, 2))] + draw(st.lists(st.integers(0, len(PALETTE) - 1), min_size=r - 1, max_size=r - 1))
@@ -373,7 +387,12 @@ def _matrix_spec(draw, classes):
 
 
 SIDES = [1, 2, 3, 4, 5, 6, 2, 3, 4, 5]
+GEOM_ROWS = [2, 3, 4, 5, 6, 8, 10, 12]
+GEOM_COLS = [2, 3, 4, 5, 6, 8, 10]
 SIGNED = ("int", "dyadic", "normal", "seedint", "lowrank", "lowrank_int", "spectrum", "spectrum")
+# classes with a wide geometric spectrum are added where the method is accurate to eps*sigma_1 (not symeig_svd:
+# components just above the 1e-6 gap are legitimately accurate to ~eps*sigma_1^2/sigma_k^2 only through the Gram route)
+WITH_GEOM = SIGNED + ("geom", "geom", "geom")
 NN_CLASSES = ("posint", "uniform", "nonneg", "sparse_nonneg", "lowrank_nonneg", "normal", "int", "allneg", "negmean", "lowrank")
 INT_CLASSES = ("int", "seedint", "posint", "lowrank_int")
 
@@ -409,6 +428,12 @@ def _case(draw, method, classes=SIGNED, nn=None, force_flip=None):
         case["os"] = draw(st.integers(0, 5))
         case["n_iter"] = draw(st.integers(0, 3))
         case["rs"] = draw(st.integers(0, 2 ** 31 - 1))
+        if spec.get("sub") == "geom":
+            # keep k + n_oversamples >= rank (the exactness clauses apply) and use power iterations
+            r = spec["r"]
+            case["n_iter"] = draw(st.integers(1, 4))
+            if k is not None and k + case["os"] < r:
+                case["k"] = k = draw(st.integers(r - case["os"], hi + 1))
     if nn is not None:
         case["nn"] = nn
     return case
@@ -420,12 +445,13 @@ def subchecks(tier):
              "callable": "callable", "direct": "tl_truncated_svd"}
     for method in METHODS:
         nm = short[method]
-        subs.append(SubCheck(f"{nm}/shape", _case(method), o_shape, quick=500, thorough=4000))
-        subs.append(SubCheck(f"{nm}/sigma", _case(method), o_sigma, quick=500, thorough=4000))
-        subs.append(SubCheck(f"{nm}/orth", _case(method), o_orth, quick=500, thorough=4000))
-        subs.append(SubCheck(f"{nm}/recon", _case(method), o_recon, quick=500, thorough=4000))
+        cl = SIGNED if method == "symeig_svd" else WITH_GEOM
+        subs.append(SubCheck(f"{nm}/shape", _case(method, classes=cl), o_shape, quick=500, thorough=4000))
+        subs.append(SubCheck(f"{nm}/sigma", _case(method, classes=cl), o_sigma, quick=500, thorough=4000))
+        subs.append(SubCheck(f"{nm}/orth", _case(method, classes=cl), o_orth, quick=500, thorough=4000))
+        subs.append(SubCheck(f"{nm}/recon", _case(method, classes=cl), o_recon, quick=500, thorough=4000))
         if method != "direct":
-            subs.append(SubCheck(f"{nm}/flip", _case(method, force_flip=True), o_flip, quick=500, thorough=4000))
+            subs.append(SubCheck(f"{nm}/flip", _case(method, classes=cl, force_flip=True), o_flip, quick=500, thorough=4000))
     # non-negative option (D18): own sub-checks, one per option value x method family
     for nn, tag in ((True, "true"), ("nndsvd", "nndsvd"), ("nndsvda", "nndsvda")):
         for method in ("truncated_svd", "randomized_svd"):
